@@ -17,5 +17,7 @@ int main(int argc, char** argv)
   tg.push_back({"lucky", c07::lucky_case, 48, 1, 30000});
   // limits configured through a PropertyMap section == limits configured through the setters
   tg.push_back({"config", c07::config_case, 48, 1, 30000});
+  // the practice of tutorial_06_global: unit filter, system matrix left unfiltered, convergence claimed (the solver's own filter_def/filter_cor calls carry the constraints)
+  tg.push_back({"krylov_unfilt", [](Tape& t, Ctx& c) { c07::force_bits = 7; target<G_KRYLOV, double, LocalBE>(t, c, {K_BICGSTAB, K_BICGSTABL, K_FGMRES, K_GMRES}, {3, 3, 2, 2}, maxn()); c07::force_bits = 0; }, 96, 2, 60000});
   return main_impl(argc, argv, tg);
 }
